@@ -10,7 +10,10 @@ Inductive case :=
         (as_panic : bool) (depth labels : Z) (globals : list val) (followup : bool)
 | PCase (mode : Z) (p : prog) (j : Z) (obs_log : list val) (obs_outcome : outcome)
         (as_panic : bool) (depth labels : Z) (followup : bool)
-| StackCase (limit d cls reached depth : Z) (repeat_same : bool).
+| StackCase (limit d cls reached depth : Z) (repeat_same : bool)
+(* a non-terminating program interrupted once from another goroutine: Run must unwind with
+   the host's panic promptly and leave the runtime at rest and usable *)
+| LCase (id : Z) (stopped as_panic rest_ok : bool).
 
 (* polls the wrapper spends before the body's block and after it.
    global mode: the `var` statement plays the role of the block's own poll.
@@ -36,6 +39,7 @@ Definition halt_out (o : outcome) : bool := match o with OThrew VHalt => true | 
 
 Definition verdict (c : case) : Z * Z :=
   match c with
+  | LCase _ stopped aspanic rest => if stopped && aspanic && rest then (0, 0) else (3, 6)
   | StackCase limit d cls reached depth same =>
       (* d nested calls from the global scope *)
       let expect := match chain limit 0 (Z.to_nat d) with None => 3 | Some _ => 0 end in
